@@ -369,7 +369,10 @@ func c19Reference(src *moduleSource) (S string, skip string) {
 // outcome of the first failing step (nil if all pass), its index, and per-step
 // outcomes for the counters.
 func c19Episode(sc *C19Scenario, src *moduleSource, S string) (bad *c19Outcome, badStep int, outs []*c19Outcome, skip string) {
-	simrt.Load((&Tape{}).config())
+	// Every episode runs as a simulator task (a call that blocks for ever is a
+	// deadlock verdict), under a simulated processor count that varies.
+	forceTasks = true
+	simrt.Load((&Tape{Procs: []int{1, 2, 4, 16}[(len(sc.Steps)+len(S)+len(sc.Start))%4]}).config())
 	simrt.SeamsOn(true, false)
 	defer simrt.SeamsOn(false, false)
 	crashed, crashMsg := simCallSafe(func() {
@@ -485,7 +488,7 @@ func c19Search() {
 		if mine() {
 			runEpisode(&C19Scenario{Module: src.Name, Start: []string{"printed", "fresh"}[unit%2], Steps: []C19Step{
 				{K: -1, Kind: "osfile-ok"}, {K: -1, Kind: "osfile-closed"}, {K: -1, Kind: "osfile-rdonly"}, {K: -1, Kind: "osfile-devfull"}, {K: -1, Kind: "ospipe-closed"},
-				{K: -1, Kind: "osfile-ok"}, {K: -1, Kind: "discard"}, {K: -1, Kind: "bytesbuffer"}, {K: -1, Kind: "stringsbuilder"}, {K: -1, Kind: "iopipe"}, {K: -1, Kind: "bufio"}, {K: -1, Kind: "multi"}, {K: -1, Kind: "reentrant"}, {K: -1, Shape: "short"}}})
+				{K: -1, Kind: "osfile-panics"}, {K: -1, Kind: "osfile-ok"}, {K: -1, Kind: "discard"}, {K: -1, Kind: "bytesbuffer"}, {K: -1, Kind: "stringsbuilder"}, {K: -1, Kind: "bytesbuffer-used"}, {K: -1, Kind: "stringsbuilder-used"}, {K: -1, Kind: "iopipe"}, {K: -1, Kind: "bufio"}, {K: -1, Kind: "multi"}, {K: -1, Kind: "reentrant"}, {K: -1, Shape: "short"}}})
 		}
 		{
 			r := newRNG(derive(*flagSeed, "C19std/"+src.Name))
